@@ -48,6 +48,22 @@ Proof. intros n c H. apply layers_ok_emit. apply content_no_esc. exact H. Qed.
 Print Assumptions C11_commands.
 
 (* non-vacuity: a real command content meets the hypothesis, and 2 layers unwrap *)
+(* ---- re-configuration of a live TupimageTerminal: after `t.num_tmux_layers = n` — whatever was assigned before, "auto"
+   included — the configuration reads n and every command is wrapped n times.  Rests on the setter writing the
+   GraphicsTerminal too (Gen.highlevel_setter_propagates, read from the source on every run; repair 855db56 of F-C11a). *)
+Theorem C11_reconfigured_terminal_wraps_n : forall ops (n : nat) s (c : list N), has_byte 27 c = false ->
+  let s' := hl_run Gen.TmuxGen.highlevel_setter_propagates s (ops ++ [SetLayers n]) in
+  cfg_layers s' = n /\
+  exists out out0, hl_emit s' c = Some out /\ emit 0 c = Some out0 /\ TmuxSpec.unwrapn n out = Some out0.
+Proof. rewrite src_highlevel_setter_propagates. exact reconfigured_wraps_n. Qed.
+Print Assumptions C11_reconfigured_terminal_wraps_n.
+(* the pinned tree's setter changed the configuration only: it then says 2 while the commands go out bare *)
+Theorem C11_unpropagated_setter_refuted :
+  let s' := hl_run false {| cfg_layers := 0; term_layers := 0 |} [SetLayers 2] in
+  cfg_layers s' = 2%nat /\ hl_emit s' [97] = emit 0 [97] /\ hl_emit s' [97] <> emit 2 [97].
+Proof. exact unpropagated_setter_refuted. Qed.
+Print Assumptions C11_unpropagated_setter_refuted.
+
 Example C11_nonvacuous :
   has_byte 27 [97; 61; 84; 44; 105; 61; 49; 59; 81; 81; 61; 61] = false /\
   (match emit 2 [97; 61; 84] with Some o => TmuxSpec.unwrapn 2 o | None => None end) = emit 0 [97; 61; 84].
